@@ -1,0 +1,44 @@
+//go:build verif
+
+package config
+
+// Machine-checked contracts for /verif (govc). Comment-only, compiled only
+// with -tags verif; changes no behaviour.
+
+// ---- C37: configuration variable expansion ----
+//
+// Parse expands the text exactly once, through one regexp.ReplaceAllStringFunc pass over the pinned
+// expression (every alternative of which starts with '$'), and the replacement function below maps one
+// match to its replacement: ${NAME} / $NAME -> value if set, else the match as written;
+// ${NAME:-default} -> value if set, else the default. The single-pass behaviour of ReplaceAllStringFunc
+// itself (replacement text is never rescanned; text outside matches is copied) is its trusted contract.
+
+//@ initcall[C37] envVarRegex = regexp.MustCompile("\\$\\{([^}]+)\\}|\\$([A-Za-z_][A-Za-z0-9_]*)")
+
+//@ func expandEnvVars
+//@ prop C37
+//@ after call ReplaceAllStringFunc let out = $ret
+//@ at call ReplaceAllStringFunc assert $0 == envVarRegex && $1 == s
+//@ ensures result == out
+//@ census[C37] ReplaceAllStringFunc in expandEnvVars
+//@ census[C37] expandEnvVars in Parse
+
+//@ func expandEnvVars$1
+//@ prop C37
+//@ check bounds
+//@ requires len(match) >= 2 && match[0] == '$'
+//@ requires match[1] == '{' ==> len(match) >= 4 && match[len(match) - 1] == '}'
+//@ note the two preconditions are what a match of the pinned expression looks like ("${" + at least one character + "}", or "$" + at least one name character); they are assumed of regexp, which calls this function
+//@ after call strings.Index let idx = $ret
+//@ after call os.LookupEnv#0 let val0 = $ret0
+//@ after call os.LookupEnv#0 let set0 = $ret1
+//@ after call os.LookupEnv#1 let val1 = $ret0
+//@ after call os.LookupEnv#1 let set1 = $ret1
+//@ at call strings.Index assert $1 == ":-" && len($0) == ite(match[1] == '{', len(match) - 3, len(match) - 1)
+//@ at call strings.Index assert forall i in 0..len($0): $0[i] == match[ite(match[1] == '{', 2, 1) + i]
+//@ at call os.LookupEnv#0 assert idx >= 0 && len($0) == idx && forall i in 0..idx: $0[i] == name[i]
+//@ at call os.LookupEnv#1 assert idx == -1 && $0 == name
+//@ ensures idx >= 0 && set0 ==> result == val0
+//@ ensures idx >= 0 && !set0 ==> len(result) == len(name) - idx - 2 && forall i in 0..len(result): result[i] == name[idx + 2 + i]
+//@ ensures idx == -1 && set1 ==> result == val1
+//@ ensures idx == -1 && !set1 ==> result == match
